@@ -8,6 +8,8 @@
   C05.d translation  in every section loop the reference-offset test precedes the first byte appended for that record
   C05.e walker       copy_uncompressed_name reports the wire position behind the FIRST pointer, exactly like the validator's walker
   C05.f bounded copies   no copy from the input packet into the output below the decompressor takes an open-ended range packet[a..]
+  C05.g owner names   in every section walk the owner name is expanded by copy_raw_name in the same loop iteration, before the record data
+                     is re-emitted; no raw name bytes (name_slice) are appended to the output
 
 Not decided: byte identity of expanded names, idempotence, acceptance of the output (run-time relations).
 """
@@ -74,6 +76,40 @@ def translation_rule(ctx, facts, cfg):
         ctx.violation(rid, UW, 'end-of-packet-case', 'a reference offset equal to the input length (the boundary behind the last record) is no longer translated', site=f['at'], config=cfg)
 
 
+def names_rule(ctx, facts, cfg):
+    """C05.g: in every section walk of the decompressor the record's owner name goes through the expanding copier (copy_raw_name, in the
+    same loop iteration, before the record data is re-emitted), and no raw name bytes (name_slice) are appended to the output."""
+    rid = 'C05.g'
+    f = facts.fn(UW)
+    if f is None:
+        ctx.missing(rid, UW)
+        return
+    defs = F.single_defs(f)
+    dom = F.dominators(f)
+    loops = F.natural_loops(f)
+    rdata_calls = [(bi, b['term']) for bi, b in F.blocks(f) if b['term']['k'] == 'call' and (F.call_path(b['term']) or '').endswith('Compress::uncompress_rdata')]
+    name_calls = [bi for bi, b in F.blocks(f) if b['term']['k'] == 'call' and ((F.call_path(b['term']) or '').endswith('::copy_raw_name') or (F.call_trait_path(b['term']) or '').endswith('::copy_raw_name'))]
+    for bi, t in rdata_calls:
+        inner = None
+        for h, body in loops.items():
+            if bi in body and (inner is None or len(body) < len(inner)):
+                inner = body
+        ok = inner is not None and any(nb in inner and (nb in dom.get(bi, ()) or nb == bi) for nb in name_calls)
+        ctx.instance(rid, 'section walk re-emitting record data at %s: the owner name is expanded by copy_raw_name earlier in the same iteration' % t.get('at'), ok=ok, site=t.get('at'))
+        if not ok:
+            ctx.violation(rid, UW, 'owner-name-not-expanded@%d' % (rdata_calls.index((bi, t)) + 1), 'a section walk of the decompressor re-emits record data at %s without expanding the record\'s owner name with '
+                          'copy_raw_name in the same iteration: a name written with a compression pointer keeps the pointer in the output' % t.get('at'), site=t.get('at'), config=cfg)
+    for bi, b in F.blocks(f):
+        t = b['term']
+        if t['k'] == 'call' and (F.call_path(t) or '').split('::')[-1] in ('extend_from_slice', 'extend', 'push') and len(t['args']) > 1:
+            rs = F.roots(f, defs, t['args'][1])
+            if any(r[0] == 'call' and str(r[1]).endswith('::name_slice') for r in rs):
+                ctx.violation(rid, UW, 'raw-name-appended', 'the decompressor appends the raw bytes of a name (name_slice) to its output at %s: compression pointers inside them are carried over' % t.get('at'),
+                              site=t.get('at'), config=cfg)
+    if len(rdata_calls) < 4:
+        ctx.violation(rid, '<floor>', 'section walks', 'found %d uncompress_rdata call sites in the decompressor, expected 4' % len(rdata_calls), kind='below-floor')
+
+
 def run(ctx):
     for cfg in ctx.configs():
         if cfg == 'hooks':
@@ -84,6 +120,7 @@ def run(ctx):
         reemit.fixed_parts_rule(ctx, facts, cfg, 'C05.b', UR)
         reemit.cursor_rule(ctx, facts, cfg, 'C05.c', [UW, 'compress::Compress::compress', 'renamer::Renamer::rename_with_raw_names'])
         translation_rule(ctx, facts, cfg)
+        names_rule(ctx, facts, cfg)
         reemit.open_ended_rule(ctx, facts, cfg, 'C05.f', UW, ('compress::',), 6, 'the decompressor')
         reemit.walker_siblings_rule(ctx, facts, cfg, 'C05.e')
     ctx.trust('analysis/interp.py contracts (Vec growth, byteorder writes), tables/policy.json')
